@@ -77,6 +77,10 @@ func (p *Prog) genFunc(fi *FuncInfo) (g *FuncGen) {
 	if fi.Writes["$iofail"] {
 		g.ghostGet(st, "$iofail")
 	}
+	if fi.Writes["$rdfail"] {
+		// a read fault is an I/O failure (invariant of the two flags)
+		g.assume(st, fmt.Sprintf("(=> %s %s)", g.ghostGet(st, "$rdfail"), g.ghostGet(st, "$iofail")))
+	}
 	g.entry = st.clone()
 	// requires
 	if fi.Spec != nil {
